@@ -1174,3 +1174,43 @@ Proof.
     rewrite Hst, A, Hmaxc, <- Sp, <- So, Hpsz, Hoff. reflexivity.
 Qed.
 Print Assumptions written_files_laid_out.
+
+(* files without points: nothing but the header and the EVLRs, through every path *)
+Theorem zero_points_read : forall f rh c e k, laid_out f rh -> evlrs_adjacent rh -> h_count rh <= 0 ->
+  fst (read_via c e k f) = match evlrs_of f rh with Ok ev => Ok (mkLF (with_evlrs rh ev) []) | Err er => Err er end.
+Proof.
+  intros f rh c e k Hlo Hadj H0. rewrite (read_via_spec c e k f rh Hlo (or_intror Hadj)).
+  apply (read_file_spec f rh [] (skipn (Z.to_nat (rh_offset rh)) f) Hlo); [constructor|unfold len; cbn; lia|reflexivity].
+Qed.
+Print Assumptions zero_points_read.
+
+(* ------------------------------------------------------------------------------------ *)
+(* I. a concrete file (written by laspy: LAS 1.4, format 6, two points, one EVLR)        *)
+(* ------------------------------------------------------------------------------------ *)
+Definition sample_file : list Z := [
+  76; 65; 83; 70; 0; 0; 0; 0; 0; 0; 0; 0; 0; 0; 0; 0; 0; 0; 0; 0; 0; 0; 0; 0; 1; 4; 67; 49; 55; 0; 0; 0;
+  0; 0; 0; 0; 0; 0; 0; 0; 0; 0; 0; 0; 0; 0; 0; 0; 0; 0; 0; 0; 0; 0; 0; 0; 0; 0; 118; 101; 114; 105; 102; 0;
+  0; 0; 0; 0; 0; 0; 0; 0; 0; 0; 0; 0; 0; 0; 0; 0; 0; 0; 0; 0; 0; 0; 0; 0; 0; 0; 60; 0; 232; 7; 119; 1;
+  119; 1; 0; 0; 0; 0; 0; 0; 6; 30; 0; 0; 0; 0; 0; 0; 0; 0; 0; 0; 0; 0; 0; 0; 0; 0; 0; 0; 0; 0; 0; 0;
+  0; 0; 0; 123; 20; 174; 71; 225; 122; 132; 63; 123; 20; 174; 71; 225; 122; 132; 63; 123; 20; 174; 71; 225; 122; 132; 63; 0; 0; 0; 0; 0;
+  0; 0; 0; 0; 0; 0; 0; 0; 0; 0; 0; 0; 0; 0; 0; 0; 0; 0; 0; 123; 20; 174; 71; 225; 122; 132; 63; 123; 20; 174; 71; 225;
+  122; 148; 191; 0; 0; 0; 0; 0; 0; 0; 0; 0; 0; 0; 0; 0; 0; 0; 0; 0; 0; 0; 0; 0; 0; 0; 0; 0; 0; 0; 0; 0;
+  0; 0; 0; 0; 0; 0; 0; 0; 0; 0; 0; 179; 1; 0; 0; 0; 0; 0; 0; 1; 0; 0; 0; 2; 0; 0; 0; 0; 0; 0; 0; 0;
+  0; 0; 0; 0; 0; 0; 0; 0; 0; 0; 0; 0; 0; 0; 0; 0; 0; 0; 0; 0; 0; 0; 0; 0; 0; 0; 0; 0; 0; 0; 0; 0;
+  0; 0; 0; 0; 0; 0; 0; 0; 0; 0; 0; 0; 0; 0; 0; 0; 0; 0; 0; 0; 0; 0; 0; 0; 0; 0; 0; 0; 0; 0; 0; 0;
+  0; 0; 0; 0; 0; 0; 0; 0; 0; 0; 0; 0; 0; 0; 0; 0; 0; 0; 0; 0; 0; 0; 0; 0; 0; 0; 0; 0; 0; 0; 0; 0;
+  0; 0; 0; 0; 0; 0; 0; 0; 0; 0; 0; 0; 0; 0; 0; 0; 0; 0; 0; 0; 0; 0; 0; 1; 0; 0; 0; 0; 0; 0; 0; 0;
+  0; 0; 0; 7; 0; 0; 0; 2; 0; 0; 0; 0; 0; 0; 0; 0; 0; 0; 0; 0; 0; 254; 255; 255; 255; 0; 0; 0; 0; 0; 0; 0;
+  0; 255; 255; 0; 0; 5; 0; 0; 0; 0; 0; 0; 0; 0; 0; 0; 0; 0; 0; 0; 0; 100; 101; 109; 111; 0; 0; 0; 0; 0; 0; 0;
+  0; 0; 0; 0; 0; 7; 0; 3; 0; 0; 0; 0; 0; 0; 0; 97; 110; 32; 101; 118; 108; 114; 0; 0; 0; 0; 0; 0; 0; 0; 0; 0;
+  0; 0; 0; 0; 0; 0; 0; 0; 0; 0; 0; 0; 0; 0; 0; 1; 2; 3].
+
+Definition sample_header : rheader := match dec_header sample_file false with Ok rh => rh | Err _ => mkRH [] [] None 0 false 0 0 end.
+
+Lemma sample_laid_out : laid_out sample_file sample_header /\ evlrs_adjacent sample_header.
+Proof.
+  split.
+  - split; [vm_compute; reflexivity|]. split; [vm_compute; reflexivity|]. split; [vm_compute; reflexivity|].
+    split; [vm_compute; reflexivity|]. unfold points_present. vm_compute. discriminate.
+  - intros _ _. vm_compute. reflexivity.
+Qed.
